@@ -33,11 +33,6 @@ Definition bound_supported (b : sbound) : bool :=
   | _ => false
   end.
 
-Definition is_json_cell (v : pval) : bool :=
-  match v with PScalar _ sc => scalar_rt_ok sc | _ => false end.
-
-Fixpoint zprod (l : list Z) : Z := match l with [] => 1%Z | x :: l' => (x * zprod l')%Z end.
-
 Section Supported.
   Variable F : cfacts.
 
@@ -69,10 +64,8 @@ Section Supported.
         if gen then is_np_mod m && mem (qual m c) (f_generic F) && resolvable m c
         else is_q m c "numpy.ndarray"
     | PObjArr _ m c shape cells =>
-        is_q m c "numpy.ndarray" && forallb is_json_cell cells
-        && match shape with [] => false | _ => true end
-        && forallb (fun d => (0 <? d)%Z) shape
-        && Z.eqb (zprod shape) (Z.of_nat (length cells))
+        (* every rank (0 included), zero-length axes included; the cells are any supported values (D10 / C13-F1 repaired) *)
+        is_q m c "numpy.ndarray" && all cells && shape_okb shape (length cells)
     | PMasked _ m c d k =>
         is_q m c "numpy.ma.MaskedArray"
         && match d, k with
@@ -130,11 +123,6 @@ Definition dict_kept_texts (items : list (dkey * pval)) : list pstr :=
   flat_map (fun kv => if is_prop (snd kv) then [] else match k_val (fst kv) with Some sc => [key_text sc] | None => [] end) items.
 (* two kept keys of the dict have the same JSON spelling *)
 Definition same_spelling (items : list (dkey * pval)) : bool := negb (nodup_texts (dict_kept_texts items)).
-Definition seq_like (v : pval) : bool :=
-  match v with
-  | PSeq QList _ _ _ _ _ | PSeq QTuple _ _ _ _ _ | PArr _ _ _ _ _ | PObjArr _ _ _ _ _ | PMasked _ _ _ _ _ | PSparse _ _ _ _ => true
-  | _ => false
-  end.
 Definition builtin_seq (m c : pstr) : bool :=
   is_q m c "builtins.list" || is_q m c "builtins.tuple" || is_q m c "builtins.set".
 
@@ -164,13 +152,7 @@ Section C04ok.
         forallb (fun x => match x with BScalar (SFloat _) => false | _ => true end) [a; b; c]
     | PArr _ gen m c _ => if is_q m c "numpy.ndarray" then negb gen else Bool.eqb gen (mem (qual m c) (f_generic F))
     | PObjArr _ m c shape cells =>
-        is_q m c "numpy.ndarray" && all cells
-        && match shape with
-           | [] => false
-           | [d] => Z.eqb d (Z.of_nat (length cells))
-           | _ => forallb (fun d => (0 <? d)%Z) shape && Z.eqb (zprod shape) (Z.of_nat (length cells))
-                  && negb (existsb seq_like cells)
-           end
+        is_q m c "numpy.ndarray" && all cells && shape_okb shape (length cells)       (* D10 repaired: any rank, any cells *)
     | PMasked _ m c d k => is_q m c "numpy.ma.MaskedArray" && c04_ok d && c04_ok k
     | PDType _ _ | PSparse _ _ _ _ | PFunc _ _ _ | PType _ _ _ | PUnsup _ _ _ => true
     | PRandState _ _ _ st => c04_ok st
